@@ -160,6 +160,7 @@ class Ctx:
         self.lens = False
         self.mod = None
         self.poison = frozenset()   # lens-mode: reference variables that may be stale on the current control-flow path
+        self.display = False        # translating `fn fmt(&self, f)` of a Display impl: the function returns the TEXT it writes
         self.allocs = 0             # number of syntactic sites in the body that can allocate on the heap (own sites + those of callees)
         self.risky = set()          # integer variables that come from the CALLER (parameters, payloads of Index / Bound / Range values) or are
                                     # computed from one: they can be anywhere in 0..=usize::MAX, so `+` on them is translated CHECKED
@@ -682,6 +683,14 @@ class Emitter:
             x = place_var(recv)
             sp = cx.fresh("sp")
             return self.tr(args[0], env, cx, lambda at, _: f"match str_split_at {x} {at} with Ret {sp} => let {x} := (fst {sp}) in {k(f'(snd {sp})', 'String')} | Panic => Panic | OutOfFuel => OutOfFuel end")
+        if cx.display and base == "fmt" and len(args) == 1:
+            def shown(t, ty):
+                txt = self.display_text(t, ty)
+                if txt is None: raise RsError(f"Display of a value of type {ty!r} not supported")
+                return k(txt, "str")
+            return self.tr(recv, env, cx, shown)
+        if cx.display and base == "write_str" and len(args) == 1 and recv == ("path", ["f"]):
+            return self.tr(args[0], env, cx, lambda t, ty: k(self.coerce(t, ty, "str"), "str"))
         if base == "next" and not args:
             # Iterator::next on the pieces of a `split`: a local variable, or the single field of `self` in a &mut self method
             x = place_var(recv) if recv[0] == "path" else None
@@ -1063,6 +1072,8 @@ class Emitter:
 
     def tr_macro(self, e, env, cx, k):
         name, toks = e[1], e[2]
+        if name == "write" and cx.display:
+            return self.tr_write(toks, env, cx, k)
         if name == "matches":
             ps = Parser(list(toks) + [("punct", ")", -1)])
             scrut = ps.parse_expr()
@@ -1090,6 +1101,55 @@ class Emitter:
         if name in ("debug_assert_eq", "debug_assert_ne"):
             raise RsError(f"{name}! changes behaviour between build profiles; not supported")
         raise RsError(f"macro {name}! not supported")
+
+    def display_text(self, t, ty):
+        """the text `{}` prints for a value"""
+        if ty == "N": return f"(dec_of_N {t})"
+        if is_str(ty) or ty == "Cow" or ty == ("named", "Token"): return self.coerce(t, ty, "str") if ty != ("named", "Token") else None
+        return None
+
+    def tr_write(self, toks, env, cx, k):
+        """`write!(f, "fmt", args..)` in a Display impl: the concatenation of the literal pieces and the `{}` / `{name}` arguments
+        (no format specs); the result is the text written"""
+        ps = Parser(list(toks) + [("punct", ")", -1)])
+        ps.parse_expr()                     # the formatter
+        ps.expect(",")
+        fmt = ps.parse_expr()
+        if fmt[0] != "str": raise RsError("write! with a non-literal format string")
+        args = []
+        while ps.eat(","):
+            if ps.at(")"): break
+            args.append(ps.parse_expr())
+        text = bytes(fmt[1]).decode("utf-8", "replace")
+        pieces, i, buf, nxt = [], 0, "", 0
+        while i < len(text):
+            c = text[i]
+            if c == "{" and text[i + 1:i + 2] == "{": buf += "{"; i += 2; continue
+            if c == "}" and text[i + 1:i + 2] == "}": buf += "}"; i += 2; continue
+            if c == "{":
+                j = text.index("}", i)
+                inner = text[i + 1:j]
+                if buf: pieces.append(("lit", buf)); buf = ""
+                if inner == "":
+                    if nxt >= len(args): raise RsError("write!: more placeholders than arguments")
+                    pieces.append(("arg", args[nxt])); nxt += 1
+                elif re.fullmatch(r"[A-Za-z_][A-Za-z0-9_]*", inner):
+                    pieces.append(("arg", ("path", [inner])))
+                else: raise RsError(f"write!: format spec `{{{inner}}}` not supported")
+                i = j + 1; continue
+            buf += c; i += 1
+        if buf: pieces.append(("lit", buf))
+        def go(todo, acc):
+            if not todo:
+                return k("(" + " ++ ".join(acc) + ")" if acc else "[]", "str")
+            kind, v = todo[0]
+            if kind == "lit": return go(todo[1:], acc + [coq_bytes(list(v.encode()))])
+            def with_arg(t, ty):
+                txt = self.display_text(t, ty)
+                if txt is None: raise RsError(f"write!: cannot print a value of type {ty!r}")
+                return go(todo[1:], acc + [txt])
+            return self.tr(v, env, cx, with_arg)
+        return go(pieces, [])
 
     # ---- control flow
     def tr_if(self, e, env, cx, k):
@@ -1661,6 +1721,8 @@ def translate(repo, groups, types, fuel):
                 if lens:
                     ret_ty = ("tuple", [("named", "Value"), ret_ty])     # (the document afterwards, result)
                 for p, pty in params:
+                    if t.get("display") and p != "self" and p[0] == "p_bind" and p[1] == "f":
+                        env["f"] = ("tt", "unit"); continue                 # the Formatter: only the text written is modelled
                     if p == "self":
                         env["self"] = ("self", self_t); binders.append(f"(self : {coq_ty(self_t)})"); ptys.append(self_t)
                     else:
@@ -1674,6 +1736,7 @@ def translate(repo, groups, types, fuel):
                 # range (its fields are read as `self.start` / `self.end`)
                 cx.risky = {v for v in env if v in CALLER_INT_PARAMS.get(coqname, ())}
                 if self_t == "N" or (isinstance(self_t, tuple) and self_t[0] == "named" and self_t[1] in CALLER_INT_TYPES): cx.risky.add("self")
+                cx.display = bool(t.get("display"))
                 cx.mod = t.get("mod")
                 cx.call_map = {k_: tuple(v_) for k_, v_ in t.get("calls", {}).items()}
                 if lens:
@@ -1831,6 +1894,8 @@ CONFIG = {
              "self_ty": "IndexFromRefToken", "ret": ("res", ("named", "Index"), ("named", "ParseIndexError"))},
             {"file": "src/token.rs", "impl": "Token", "name": "to_index", "coq": "gen_Token_to_index"},
             {"file": "src/token.rs", "impl": "Token", "name": "is_next", "coq": "gen_Token_is_next"},
+            {"file": "src/index.rs", "impl": "Index", "trait_exact": "fmt::Display", "name": "fmt", "coq": "gen_Index_display", "self_ty": "IndexDisplay",
+             "self_type": ("named", "Index"), "self_alias": "Index", "display": True, "ret": "str"},
         ]),
         ("Buf", [
             {"file": "src/pointer.rs", "impl": "PointerBuf", "name": "push_front", "coq": "gen_PointerBuf_push_front", "mut_self": True},
@@ -1916,6 +1981,14 @@ CONFIG = {
             {"file": "src/token.rs", "impl": "Token", "trait_exact": "From<&'aString>", "name": "from", "coq": "gen_Token_from_ref_String", "self_ty": "TokenFromRefString", "self_alias": "Token"},
             {"file": "src/token.rs", "impl": "Token", "trait_exact": "From<String>", "name": "from", "coq": "gen_Token_from_String", "self_ty": "TokenFromString", "self_alias": "Token"},
             {"file": "src/token.rs", "impl": "Token", "trait_exact": "From<&Token<'a>>", "name": "from", "coq": "gen_Token_from_ref_Token", "self_ty": "TokenFromRefToken", "self_alias": "Token"},
+            # Display impls: `fn fmt(&self, f)` translated to the TEXT it writes (write! with `{}` / `{name}` only, f.write_str, x.fmt(f))
+            {"file": "src/pointer.rs", "impl": "Pointer", "trait_exact": "core::fmt::Display", "name": "fmt", "coq": "gen_Pointer_display", "self_ty": "PointerDisplay",
+             "self_type": ("named", "Pointer"), "display": True, "ret": "str"},
+            {"file": "src/pointer.rs", "impl": "PointerBuf", "trait_exact": "core::fmt::Display", "name": "fmt", "coq": "gen_PointerBuf_display", "self_ty": "BufDisplay",
+             "self_type": ("named", "PointerBuf"), "display": True, "ret": "str"},
+            {"file": "src/token.rs", "impl": "Token", "trait_exact": "alloc::fmt::Display", "name": "fmt", "coq": "gen_Token_display", "self_ty": "TokenDisplay",
+             "self_type": ("named", "Token"), "display": True, "ret": "str"},
+
         ]),
         # all hand-written mixed comparisons (C17): discovered, not listed, so a new one is translated too
         ("Cmp", "auto:cmp"),
@@ -1943,7 +2016,7 @@ CONFIG = {
         ]),
     ],
     # which earlier groups a group's functions call (imports of the generated file)
-    "deps": {"Conv": ["Pointer", "Token", "PtrOps", "Buf", "PtrBuild", "=Value"], "Cmp": ["=Value"], "PtrOps": ["Token"], "TreeMut": ["Token", "PtrOps", "Slice", "Index", "=GenTreePrelude", "Tree"], "Slice": ["PtrOps"], "Buf": ["Token", "PtrOps"], "PtrBuild": ["Token", "PtrOps", "Buf"], "Index": ["Token", "=GenTreePrelude"], "Tree": ["Token", "PtrOps", "Slice", "Index", "=GenTreePrelude"]},
+    "deps": {"Conv": ["Pointer", "Token", "PtrOps", "Buf", "PtrBuild", "=Value", "=Dec"], "Cmp": ["=Value"], "PtrOps": ["Token"], "TreeMut": ["Token", "PtrOps", "Slice", "Index", "=GenTreePrelude", "Tree"], "Slice": ["PtrOps"], "Buf": ["Token", "PtrOps"], "PtrBuild": ["Token", "PtrOps", "Buf"], "Index": ["Token", "=GenTreePrelude"], "Tree": ["Token", "PtrOps", "Slice", "Index", "=GenTreePrelude"]},
     # fuel for `while` loops: (generated function, nesting depth) -> Gallina term over the parameters
     "fuel": {("gen_validate_bytes", 0): "S (length bytes)",
              ("gen_json_resolve", 0): "S (length ptr)", ("gen_json_resolve_mut", 0): "S (length ptr)",
